@@ -107,6 +107,7 @@ type State struct {
 	par           *ParState
 	nonReplayable bool
 	noBlock       bool
+	lockOwner     map[string]int // vPar: 1 + thread that holds the mutex
 	fmtArgs   []Value
 	lastTokOperands []Value
 	inArm    int // > 0 while executing one arm of a diamond that is being merged
@@ -166,6 +167,15 @@ func (s *State) clone() *State {
 		// the running stack is t.frames (already cloned); keep par.stacks[cur] unused
 	}
 	return &t
+}
+
+func (s *State) setLockOwner(k string, t int) {
+	m := make(map[string]int, len(s.lockOwner)+1)
+	for a, b := range s.lockOwner {
+		m[a] = b
+	}
+	m[k] = t
+	s.lockOwner = m
 }
 
 func (s *State) top() *Frame { return s.frames[len(s.frames)-1] }
